@@ -14,7 +14,7 @@ CONSTANTS N = %d Inf = 16 MaxFaults = 99 Pfx = {1,2,3,4} Thresh = 100 TraceFile 
 RV_HEAD = ('SPECIFICATION TSpec\nCONSTANTS Names = {"/p/a", "/p/b", "/q"} FaceIds = {901, 902, 903} Origins = {0, 65, 128} Client = 65 Dev = {} '
            'TraceFile = "@TRACE@"\n')
 ADV_HEAD = 'SPECIFICATION TSpec\nCONSTANTS DeadInt = 30 Life = 4 Fresh = 999 Dev = {} TraceFile = "@TRACE@"\n'
-ADV_PROPS = ["T_nopanic", "T_C18a_state", "T_C18a_pub", "T_C18a_fetch", "T_C18a_data", "T_C18a_rib", "T_C18a_dead", "T_C18a_noresurrect", "T_C18a_settle"]
+ADV_PROPS = ["T_nopanic", "T_C18a_state", "T_C18a_pub", "T_C18a_fetch", "T_C18a_data", "T_C18a_rib", "T_C18a_dead", "T_C18a_noresurrect", "T_C18a_routes", "T_C18a_settle"]
 INVS = {"C18": ["I_C18adv", "I_C18choice", "I_C18fix", "I_C18bound"], "C19": ["I_C19inst", "I_C19log", "I_C19seq"]}
 
 
@@ -71,7 +71,7 @@ def run(pid, tier, replay=None):
     if replay and any(r.get("ev") in ("pchange", "rsync") for r in V.read_ndjson(replay)):      # a segment of the adv stage
         V.run_harness(binary, "TestDvAdvReplay", {"VERIF_OUT": wd, "VERIF_REPLAY": os.path.abspath(replay)})
         rows = V.read_ndjson(os.path.join(wd, "dvadv_replay.ndjson"))
-        r = V.validate_trace(wd, rows, "DVAdvTrace.tla", ADV_HEAD, [p for p in ADV_PROPS if p != "T_C18a_settle"], invariants=["I_C18a_quiet"], label="advr", timeout=600)
+        r = V.validate_trace(wd, rows, "DVAdvTrace.tla", ADV_HEAD, [p for p in ADV_PROPS if p != "T_C18a_settle"], invariants=["I_C18a_quiet", "I_C18a_routes"], label="advr", timeout=600)
         if r["blocked"]:
             raise V.Machinery("advertisement-exchange trace not followable (drift): %s" % json.dumps(r["blocked"])[:1500])
         for v in r["violations"]:
@@ -156,14 +156,17 @@ def run(pid, tier, replay=None):
     # ---- how advertisements travel (spec/dv/DVAdvert.tla): Sync Interests, debounced fetches, the engine's pending table,
     #      queued ribUpdate goroutines against the dead-neighbour check
     if pid == "C18" and not replay:
-        AD_MC = ("SPECIFICATION MSpec\nCONSTANTS DeadInt = 3 Life = 1 Fresh = 1 Dev = %s MaxChanges = 2 MaxTime = %d\nVIEW MView\nCONSTRAINT GenBound\n"
-                 "INVARIANTS Sane QuiescentCorrect\nPROPERTIES NoResurrect\nCHECK_DEADLOCK FALSE\n")
+        AD_MC = ("SPECIFICATION MSpec\nCONSTANTS DeadInt = 3 Life = 1 Fresh = 1 Dev = %s MaxChanges = %d MaxTime = %d MCFaces = %s\nVIEW MView\nCONSTRAINT GenBound\n"
+                 "INVARIANTS Sane QuiescentCorrect RoutesFollowFace\nPROPERTIES NoResurrect\nCHECK_DEADLOCK FALSE\n")
         with open(os.path.join(wd, "mc_adv.cfg"), "w") as f:
-            f.write(AD_MC % ("{}", 5 if th else 4))
+            f.write(AD_MC % ("{}", 2, 5 if th else 4, "{7}"))
         mc["adv"] = V.tlc(wd, "DVAdvertMC.tla", "mc_adv.cfg", workers=8, timeout=3000)
+        with open(os.path.join(wd, "mc_advf.cfg"), "w") as f:        # two faces, active and passive pings (the face the routes follow)
+            f.write(AD_MC % ("{}", 1, 4 if th else 3, "{7, 8}"))
+        mc["adv-faces"] = V.tlc(wd, "DVAdvertMC.tla", "mc_advf.cfg", workers=4, timeout=1500)
         for dev in ('{"AcceptOlder"}', '{"KeepAdvertOnRemove"}'):       # negative controls: both deviations must be refuted
             with open(os.path.join(wd, "mc_adv_neg.cfg"), "w") as f:
-                f.write(AD_MC % (dev, 4))
+                f.write(AD_MC % (dev, 2, 4, "{7}"))
             neg = V.tlc(wd, "DVAdvertMC.tla", "mc_adv_neg.cfg", workers=2, timeout=600)
             if neg.status != "violation":
                 raise V.Machinery("negative control %s of DVAdvert not refuted: %s\n%s" % (dev, neg.status, neg.out[-1500:]))
@@ -173,7 +176,7 @@ def run(pid, tier, replay=None):
         execs_all += ad_execs
         for ci in range(0, len(ad_execs), 150):
             ch = [r for (_, ex) in ad_execs[ci:ci + 150] for r in ex]
-            r = V.validate_trace(wd, ch, "DVAdvTrace.tla", ADV_HEAD, ADV_PROPS, invariants=["I_C18a_quiet"], label="adv%d" % ci, timeout=3000)
+            r = V.validate_trace(wd, ch, "DVAdvTrace.tla", ADV_HEAD, ADV_PROPS, invariants=["I_C18a_quiet", "I_C18a_routes"], label="adv%d" % ci, timeout=3000)
             if r["blocked"]:
                 raise V.Machinery("advertisement-exchange trace not followable (drift): %s" % json.dumps(r["blocked"])[:1500])
             accepted += r["accepted_execs"]
